@@ -74,7 +74,7 @@ def build(cfg, eri=False):
 
 def psd(o, name, A, tol, key, sign=1.0):
     A = np.asarray(A)
-    o.cmp(name + " symmetric", A, A.T, 1e-12, np.max(np.abs(A)) + 1e-300, key=key + "-symmetric")
+    o.cmp(name + " symmetric", A, A.T, tol * 1e-3, np.max(np.abs(A)) + 1e-300, key=key + "-symmetric")
     w = np.linalg.eigvalsh((A + A.T) / 2) * sign
     lam = float(np.max(np.abs(w))) if w.size else 0.0
     o.check(name + (" positive" if sign > 0 else " negative") + " semi-definite", bool(w.min() >= -tol * lam - 1e-300),
